@@ -44,6 +44,7 @@ def gen_case(rng):
         c["df"] = float(dfb).hex(); c["dt"] = float(dtb).hex(); c["T"] = int(obs / dtb)
         if c["T"] < 1:
             c["backend"]["obs_length"] = float(dtb * 3.5).hex(); c["T"] = int((dtb * 3.5) / dtb)
+        c["backend"]["with_data"] = rng.random() < 0.4      # channel count inferred from a preloaded array instead of fchans
         c["F"] = min(F, 4096)
         if c["F"] * c["T"] > 2 ** 19:
             c["F"] = max(1, 2 ** 19 // c["T"])
